@@ -253,7 +253,7 @@ pub fn run_case(case: &Case) -> RunOutput {
         if sim.step() {
             continue;
         }
-        if !sim.advance_time(horizon) {
+        if !sim.advance_time(cx.last_client_time.get() + horizon) {
             // nothing runnable and no timer (or only timers beyond the horizon): the unfinished clients are stuck
             flags.stuck_clients =
                 done.borrow().iter().enumerate().filter(|(_, d)| !**d).map(|(i, _)| i).collect();
@@ -403,7 +403,7 @@ pub fn horizon_of(case: &Case) -> u64 {
             }
         }
     }
-    4 * total + 20 * max_timer + 200
+    2 * total + 3 * max_timer + 60
 }
 
 fn convert(addr: &AnyAddr, kind: HKind) -> Option<H> {
@@ -502,10 +502,12 @@ async fn run_client(me: usize, ops: Vec<ClientOp>, table_rc: Rc<RefCell<Table>>,
 }
 
 fn begin(me: usize, opi: usize, what: OpWhat, held: Option<&Held>, msg: Option<u32>) {
+    with_case(|c| c.last_client_time.set(c.sim.now()));
     log(EvKind::OpBegin { client: me, op: opi, what, actor: held.map(|h| h.actor), via: held.map(|h| h.h.kind()), msg });
 }
 
 fn end(me: usize, opi: usize, res: OpRes, polls: u32) {
+    with_case(|c| c.last_client_time.set(c.sim.now()));
     log(EvKind::OpEnd { client: me, op: opi, res, polls });
 }
 
